@@ -4,11 +4,12 @@ import (
 	"encoding/json"
 	"fmt"
 	"os"
+	"time"
 )
 
-// Replayers re-run one recorded violation without the explorer; keyed by property id.
-var Replayers = map[string]func(rep map[string]any) (string, bool){}
-
+// ReplayMain re-runs, without the parent/worker machinery, the unit that produced a recorded violation
+// and reports whether a violation with the same signature appears again on the current tree.
+// Exit status 1 = reproduced, 0 = not reproduced.
 func ReplayMain(path string) int {
 	b, err := os.ReadFile(path)
 	if err != nil {
@@ -25,18 +26,32 @@ func ReplayMain(path string) int {
 		fmt.Println(err)
 		return 2
 	}
-	fmt.Printf("property %s\nsignature %s\n%s\n", f.Property, f.Signature, f.Detail)
-	rp := Replayers[f.Property]
-	if rp == nil {
-		fmt.Println("(no standalone replayer for this property; the replay section holds the inputs)")
+	fmt.Printf("property  %s\nsignature %s\nrecorded  %s\n", f.Property, f.Signature, trunc(f.Detail, 1500))
+	ck := Lookup(f.Property)
+	unit, _ := f.Replay["unit"].(string)
+	tier, _ := f.Replay["tier"].(string)
+	var seed int64
+	if v, ok := f.Replay["seed"].(float64); ok {
+		seed = int64(v)
+	}
+	if ck == nil || unit == "" {
+		fmt.Println("(the replay section holds the inputs; no unit recorded)")
 		return 0
 	}
-	msg, reproduced := rp(f.Replay)
-	fmt.Println(msg)
-	if reproduced {
-		fmt.Println("REPRODUCED")
-		return 1
+	for i, u := range ck.Units(tier, seed) {
+		if u.Name != unit {
+			continue
+		}
+		res := RunUnit(u, i, tier, seed, time.Now().Add(20*time.Minute))
+		for _, v := range res.Violations {
+			if v.Sig == f.Signature {
+				fmt.Printf("\nREPRODUCED on the current tree by unit %q:\n%s\n", unit, trunc(v.Detail, 3000))
+				return 1
+			}
+		}
+		fmt.Printf("\nnot reproduced: unit %q ran %d executions, %d other violation signature(s)\n", unit, res.Evals, len(res.Violations))
+		return 0
 	}
-	fmt.Println("not reproduced on the current tree")
-	return 0
+	fmt.Printf("unit %q no longer exists\n", unit)
+	return 2
 }
